@@ -258,13 +258,13 @@ func runSelfTest(p *Program, prop *Property, results []Result) map[string]any {
 	sort.Strings(notKilled)
 	sort.Strings(skipped)
 	return map[string]any{
-		"selftest_rule": "every witness recorded by a discharged obligation (guard condition, error test, store, table cell) is neutralised in an in-memory copy of the current file; affected module packages are re-type-checked; the obligation must stop being discharged",
-		"mutants_total":      total,
-		"mutants_applied":    applied,
-		"mutants_killed":     killed,
-		"mutants_skipped":    skipped,
-		"selftest_failures":  notKilled,
-		"selftest_samples":   samples,
+		"selftest_rule":     "every witness recorded by a discharged obligation (guard condition, error test, store, table cell) is neutralised in an in-memory copy of the current file; affected module packages are re-type-checked; the obligation must stop being discharged",
+		"mutants_total":     total,
+		"mutants_applied":   applied,
+		"mutants_killed":    killed,
+		"mutants_skipped":   skipped,
+		"selftest_failures": notKilled,
+		"selftest_samples":  samples,
 	}
 }
 
@@ -563,10 +563,10 @@ func runSensitivitySweep(p *Program, prop *Property, funcs map[string]bool) map[
 	sort.Strings(blind)
 	sort.Strings(seenList)
 	return map[string]any{
-		"sensitivity_rule":      "every two-way condition of the analysed functions forced false and forced true, one at a time, in memory; a variant is noticed when at least one obligation of the property stops being discharged",
-		"sensitivity_variants":  applied,
-		"sensitivity_noticed":   noticed,
-		"sensitivity_unnoticed": blind,
+		"sensitivity_rule":         "every two-way condition of the analysed functions forced false and forced true, one at a time, in memory; a variant is noticed when at least one obligation of the property stops being discharged",
+		"sensitivity_variants":     applied,
+		"sensitivity_noticed":      noticed,
+		"sensitivity_unnoticed":    blind,
 		"sensitivity_noticed_list": seenList,
 	}
 }
